@@ -907,7 +907,7 @@ pub fn prop() -> DiceProp {
         fixed: no_fixed,
         classify,
         rule: format!(
-            "struct / enum variant with 1..3 fields (i32, f64, &str, &i32, usize; positional or named) deriving one of the 9 fmt traits; classes: implicit (8 Display-like traits, single field, no attribute), subst (literal = one bare placeholder in any of the 9 placeholder traits naming a field, its only positional argument as `{{}}`/`{{0}}`, its only named argument by name or by position; argument = field, expression, method call, format_args!), inert (one placeholder with exactly one of align / fill / sign / # / 0 / width / precision / x? / X?; bare placeholder plus text or escape; two placeholders; none), negative (index out of range with 0, 1, 2 arguments, unused positional / named argument); every runnable case is evaluated under {ns} outer specs (each single modifier, all-pairs over fill+align x sign x # x 0 x width x precision, 40 fixed random; for derive(Debug) under ?, x? and X?): subst/implicit must equal the same spec applied to the argument under the placeholder's trait, inert must equal the flag-free output which must equal format!(literal, args); additional classes: the format under test written on the enum for an attribute-less variant (subst and inert), attribute-less variant under an enum-level default (inert), raw-identifier fields named in the literal / used as alias, `{{:}}` empty spec, whitespace before the colon, trailing commas, `N$`/`name$` width parameters as the one modifier, field-less types with a constant argument; negative cases must be rejected with a diagnostic about format arguments; non-trivial = the argument is not a format_args! (which ignores flags itself): the grid always contains specs that change its text (measured per case as `sensitive`); distinct by program text"
+            "struct / enum variant with 1..3 fields (i32, f64, &str, &i32, usize; positional or named) deriving one of the 9 fmt traits; classes: implicit (8 Display-like traits, single field, no attribute), subst (literal = one bare placeholder in any of the 9 placeholder traits naming a field, its only positional argument as `{{}}`/`{{0}}`, its only named argument by name or by position; argument = field, expression, method call, format_args!), inert (one placeholder with exactly one of align / fill / sign / # / 0 / width / precision / x? / X?; bare placeholder plus text or escape; two placeholders; none), negative (index out of range with 0, 1, 2 arguments, unused positional / named argument); every runnable case is evaluated under {ns} outer specs (each single modifier, all-pairs over fill+align x sign x # x 0 x width x precision, 40 fixed random; for derive(Debug) under ?, x? and X?): subst/implicit must equal the same spec applied to the argument under the placeholder's trait, inert must equal the flag-free output which must equal format!(literal, args); additional classes: the format under test written on the enum for an attribute-less variant (subst and inert), attribute-less variant under an enum-level default (inert), attribute-less single-field variant under an enum-level `{{_variant}}` (non-Display derives) / `<{{_variant}}>` wrapper (wrapped text of the field, inert), raw-identifier fields named in the literal / used as alias, `{{:}}` empty spec, whitespace before the colon, trailing commas, `N$`/`name$` width parameters as the one modifier, field-less types with a constant argument; negative cases must be rejected with a diagnostic about format arguments; non-trivial = the argument is not a format_args! (which ignores flags itself): the grid always contains specs that change its text (measured per case as `sensitive`); distinct by program text"
         ),
         assumptions: vec![
             "format! of the installed stable toolchain applied to the argument directly is the reference".into(),
